@@ -5,7 +5,7 @@ PROP = dict(
         "apply site (syntactic, by reading algorithm/kalman/mod.rs:141-213): update_clock passes exactly select()'s result to combine(); combine() calls vote_leap(selection) on that same slice; the result is handed to NtpClock::status_update and stored in timedata.leap_indicator only when it is Some, otherwise both are left unchanged",
     ],
     bounds="every multiset of leap indicators {NoWarning, Leap61, Leap59, Unknown} over 0..=6 selected sources",
-    outside="more than 6 selected sources; the update_clock -> status_update link beyond the syntactic note (update_clock with a populated source map does not get through symbolic execution: hashbrown + Kalman merge); Unsynchronized inside a selection (vote_leap panics; select never returns such a source: asserted by c03_select)",
+    outside="more than 6 selected sources; the update_clock -> status_update link beyond the syntactic note (c04_apply of the design: update_clock needs a populated HashMap of sources; inserting two sources with concrete keys was still inside hashbrown's find_or_find_insert_index_inner after 7 min of symbolic execution: measured); Unsynchronized inside a selection (vote_leap panics; select never returns such a source: asserted by c03_select)",
     assumptions=["no selected source is Unsynchronized (guaranteed by select, see C03)"],
     harnesses=[
         H(NP, "c04", "c04_vote", "vote_leap == Some(l) iff count(l)*2 > number of sources with known leap status, None otherwise (independent recount)", timeout=300),
